@@ -34,7 +34,7 @@ CLAIMED = {
              "What a lock protects is fetched under the lock: the call order of Acquire / LookupSlot / Release regenerated from package fstxn is checked (slots_are_fetched_under_the_lock), and under that "
              "discipline no transaction ever obtains a cache slot with another transaction's uncommitted changes, whatever is evicted when (model of locks and slots together). "
              "Locks are given back only after the flush (unstable WRITEs aside): under that discipline — checked on every recorded transaction — what another transaction reads under the lock is what a crash "
-             "at that moment recovers, for every interleaving (model M11 of the log's durable and pending parts, commits, logger and locks).",
+             "at that moment recovers, for every interleaving (model M14 of the log's durable and pending parts, commits, logger and locks).",
         design_ref="DESIGN.md 5/C03", note="trusted: Lean kernel, reference model, fstxn hooks and harness; schedules of the real runtime are sampled, not quantified over",
         technique="Lean 4 proof (2PL => commit-order serialization) + commit-order replay of observed concurrent histories on the reference model"),
     "C04": dict(category="proof",
@@ -61,7 +61,7 @@ CLAIMED = {
     "C08": dict(category="proof",
         text="Lean theorems on the reference model: generations are monotone and bump at every allocation/free, a dead handle stays dead after ANY history (stale_forever), every "
              "procedure and handle position refuses a dead handle, created handles are fresh; correspondence with a stale-handle bank, forced inode-number reuse and an "
-             "implementation-side oracle (no OK for a dead handle, no handle issued twice); a handle given to ANOTHER client survives a crash (M11 + crash right after every reply that reveals a name).",
+             "implementation-side oracle (no OK for a dead handle, no handle issued twice); a handle given to ANOTHER client survives a crash (M14 + crash right after every reply that reveals a name).",
         design_ref="DESIGN.md 5/C08", note="trusted: Lean kernel, reference model, harness; inode-number reuse forced by moving the allocator's roving pointer",
         technique="Lean 4 proof (invariant over histories) + correspondence"),
     "C09": dict(category="proof",
@@ -96,7 +96,7 @@ CLAIMED = {
     "C17": dict(category="proof",
         text="Lean theorems on a transliteration of simple/ops.go + inode.go: WRITE/READ/SETATTR refine the specification 'a fixed set of files, each a byte string of at most 4096 bytes' "
              "(acceptance conditions exact for all 64-bit offsets and counts, content equations, end-of-file flag, zero fill, no exposure after shrink), invalid inodes refused, "
-             "invariant preserved, per-file objects disjoint; every handler holds the inode's lock across its body's waiting commit (regenerated table), hence replies reveal only durable state (M11); correspondence on all procedures with exact status codes; concurrent rounds on one inode must be explained by some order applied by the model; crash images (prefix-state oracle, recovered by simple.Recover) with the C01 WAL theorems (PARTIAL: schedules and crash points sampled).",
+             "invariant preserved, per-file objects disjoint; every handler holds the inode's lock across its body's waiting commit (regenerated table), hence replies reveal only durable state (M14); correspondence on all procedures with exact status codes; concurrent rounds on one inode must be explained by some order applied by the model; crash images (prefix-state oracle, recovered by simple.Recover) with the C01 WAL theorems (PARTIAL: schedules and crash points sampled).",
         design_ref="DESIGN.md 5/C17", note="trusted: Lean kernel, hand-written transliteration (validated by correspondence), harness",
         technique="Lean 4 refinement proof + correspondence"),
     "C18": dict(category="proof",
